@@ -23,6 +23,7 @@ import JSV.Proofs.MshCloneOk
 import JSV.Model.Unmarshal
 import JSV.Proofs.IsoValid
 import JSV.Proofs.ResIsoClone
+import JSV.Proofs.ResIsoDocs
 namespace JSV.C20
 open JSV Go
 
@@ -344,6 +345,55 @@ theorem clone_validates_same (st : Store) (root : NodeId) (env : Go.Env) (hnd : 
     rs rs' h₁ h₂
   exact ⟨c, st', rs', h, h₂, e1, e2, e3⟩
 
+/-- `clone_validates_same_docs`: the same WITH documents fetched through the Loader.  The Loader universe is shared:
+    `L` is a set of schemas (ids, nil ones included) that contains the root of every document the Loader hands out, is
+    closed under the schema-valued fields, lies in the store before cloning (or is nil: `≥ 10^9`), and is disjoint from
+    the tree of `root`.  If `Resolve` of `root` returns normally — references into Loader documents, and from Loader
+    documents back into the root document, included — then `root.CloneSchemas()` succeeds, `Resolve` of the clone against
+    the same Loader returns normally with the same draft and the same Loader log (the same URIs fetched in the same
+    order), and every instance gets the same Spec result from the clone as from the original. -/
+theorem clone_validates_same_docs (st : Store) (root : NodeId) (env : Go.Env) (L : NodeId → Prop)
+    (hLst : ∀ a, L a → a < st.size ∨ 1000000000 ≤ a)
+    (hLcl : ∀ a n, L a → st.get? a = some n → ∀ f, f ∈ n.childFields → ∀ x, x ∈ f.ids → L x)
+    (hLroots : ∀ t key l, env.loader = some t → Json.lookup key t = some (.doc l) → L l)
+    (hLdis : ∀ fresh, Go.checkStructure st (st.size + 2) [(root, "")] [] = .ok fresh → ∀ a, L a → a ∉ fresh.map (·.1))
+    (hroom : st.size + Go.cloneCount st (st.size + 1) root ≤ 1000000000)
+    (fuel : Nat) (base : String) (rs : Go.Resolved)
+    (h₁ : Go.resolve { env with st := st } fuel root base = .ok rs) :
+    ∃ c st' rs', Go.clone st root = .ok (c, st') ∧
+      Go.resolve { env with st := st' } fuel c base = .ok rs' ∧ rs.draft = rs'.draft ∧ rs.log = rs'.log ∧
+      ∀ (reMatch : String → String → Bool) (vfuel : Nat) (j : Json),
+        Spec.evalFuel (Go.RIso.specOf st' rs' reMatch) vfuel [] c j =
+          Spec.evalFuel (Go.RIso.specOf st rs reMatch) vfuel [] root j := by
+  obtain ⟨fresh, hcs⟩ := Go.RIso.resolve_ok_cs { env with st := st } fuel root base rs h₁
+  have hg : ∀ B, Go.Good B st st.size root := fun B => Go.good_of_checkStructure B st _ root fresh hcs
+  obtain ⟨c, st', h, hsz, -⟩ := clone_total (st.size + Go.cloneCount st (st.size + 1) root) st.size st root
+    (hg _) (Nat.le_succ _) (Nat.le_refl _)
+  obtain ⟨f', fresh', hcs', hiv⟩ := clone_is_tree st root c st' _ fresh hcs h
+  have hBn : st'.size ≤ 1000000000 := by rw [hsz]; exact hroom
+  have hext := Go.cloneFuel_ext _ h
+  have hs : st.size ≤ st'.size := hext.1
+  have hsim : Go.Sim st'.size st st' st.size root c :=
+    Go.cloneFuel_sim st'.size st _ st.size (Go.Ext.refl st) (hg _) h (Nat.le_refl _)
+  have hL : Go.RIso.DocsOK { env with st := st } { env with st := st' } L := by
+    refine ⟨?_, hLcl, hLroots⟩
+    intro a ha
+    show st.get? a = st'.get? a
+    rcases hLst a ha with hlt | hge
+    · exact (hext.2 a hlt).symm
+    · rw [Go.get?_eq_none_iff.2 (Nat.le_trans (Nat.le_trans hs hBn) hge),
+        Go.get?_eq_none_iff.2 (Nat.le_trans hBn hge)]
+  obtain ⟨rs', h₂, e1, e2, e3⟩ := Go.RIso.resolve_trees_docs (env₁ := { env with st := st })
+    (env₂ := { env with st := st' }) (Go.RIso.cloneS_treeSim (B := st'.size) hs (Nat.le_refl _)) rfl rfl rfl
+    (Go.get?_eq_none_iff.2 (Nat.le_trans hs hBn)) (Go.get?_eq_none_iff.2 hBn) (r₁ := root) (r₂ := c) ⟨_, hsim⟩ hL
+    fuel base h₁ hcs' hLdis
+    (fun a ha hm => by
+      have := hiv a hm
+      rcases hLst a ha with hlt | hge
+      · exact absurd hlt (Nat.not_lt.2 this.1)
+      · exact absurd (Nat.lt_of_lt_of_le this.2 hBn) (Nat.not_lt.2 hge))
+  exact ⟨c, st', rs', h, h₂, e1, e2, fun reMatch vfuel j => (e3 reMatch vfuel j).symm⟩
+
 /-- `clone_validate_same`: … and for the evaluator itself (`Go.validateFuel`, through `C01.validate_refines_spec`), trees
     with references included.  The original is resolved in the store before cloning (`rs`), the clone in the store after
     (`rs'`).  `v₁`, `v₂`: the environments `Validate` runs on — the drafts of `rs` / `rs'`; info tables and stores that
@@ -664,6 +714,73 @@ example (vfuel : Nat) (j : Json) (hj : Json.WF j = true) :
   | fuel => rw [hc] at hck; cases hck
   | panic => rw [hc] at hck; cases hck
   | err => rw [hc] at hck; cases hck
+
+/-! ### `clone_validates_same_docs` is not vacuous: a root document with two references INTO a Loader document (by
+  pointer and by `$anchor`); the Loader is called once on either side -/
+
+def exDocStore : Store := #[
+  { id := "http://a/root.json", allOf := some [1], properties := some [("p", 2)] },   -- 0
+  { ref := "other.json#/$defs/x" },                                                    -- 1
+  { ref := "other.json#tag" },                                                         -- 2
+  { defs := some [("x", 4), ("y", 5)] },                                               -- 3: http://a/other.json
+  { type := "string" },                                                                -- 4
+  { anchor := "tag", minLength := some 2 }]                                            -- 5
+def exDocEnv : Go.Env :=
+  { st := exDocStore, reOk := fun _ => true, loader := some [("http://a/other.json", .doc 3)] }
+/-- the schemas of the Loader universe -/
+def exDocL (a : NodeId) : Prop := a ∈ [3, 4, 5]
+
+example : ((Go.resolve exDocEnv 2 0 "").bind fun rs => .ok (rs.log, rs.infos.map fun (e : NodeId × Go.Info) =>
+      (e.1, e.2.resolvedRef))) =
+    .ok (["http://a/other.json"], [(0, none), (1, some 4), (2, some 5), (3, none), (4, none), (5, none)]) := by
+  decide +kernel
+
+example : ∃ c st' rs rs', Go.clone exDocStore 0 = .ok (c, st') ∧ Go.resolve exDocEnv 2 0 "" = .ok rs ∧
+    Go.resolve { exDocEnv with st := st' } 2 c "" = .ok rs' ∧ rs.log = rs'.log ∧
+    ∀ (reMatch : String → String → Bool) (vfuel : Nat) (j : Json),
+      Spec.evalFuel (Go.RIso.specOf st' rs' reMatch) vfuel [] c j =
+        Spec.evalFuel (Go.RIso.specOf exDocStore rs reMatch) vfuel [] 0 j := by
+  have hok : (Go.resolve exDocEnv 2 0 "").isOk = true := by decide +kernel
+  have hfresh : (match Go.checkStructure exDocStore (exDocStore.size + 2) [(0, "")] [] with
+      | .ok fresh => fresh.map (·.1) == [0, 1, 2]
+      | _ => false) = true := by decide
+  cases hr : Go.resolve exDocEnv 2 0 "" with
+  | ok rs =>
+    obtain ⟨c, st', rs', h, h₂, -, e2, e⟩ := clone_validates_same_docs exDocStore 0 exDocEnv exDocL
+      (fun a ha => Or.inl (by
+        have : ∀ x ∈ [3, 4, 5], x < exDocStore.size := by decide
+        exact this a ha))
+      (fun a n ha hn f hf x hx => by
+        have hcl : ∀ a ∈ [3, 4, 5], ∀ n, exDocStore.get? a = some n → ∀ f ∈ n.childFields, ∀ x ∈ f.ids, x ∈ [3, 4, 5] := by
+          intro a ha
+          simp only [List.mem_cons, List.not_mem_nil, or_false] at ha
+          rcases ha with rfl | rfl | rfl <;> intro n hn <;> cases hn <;> decide
+        exact hcl a ha n hn f hf x hx)
+      (fun t key l ht hk => by
+        cases ht
+        simp only [Json.lookup_cons, Json.lookup_nil] at hk
+        split at hk
+        · cases hk; show 3 ∈ [3, 4, 5]; decide
+        · cases hk)
+      (fun fresh hf a ha hm => by
+        rw [hf] at hfresh
+        have he : fresh.map (·.1) = [0, 1, 2] := by simpa using hfresh
+        rw [he] at hm
+        have : ∀ x ∈ [3, 4, 5], x ∉ [0, 1, 2] := by decide
+        exact this a ha hm)
+      (by decide) 2 "" rs hr
+    exact ⟨c, st', rs, rs', h, rfl, h₂, e2, e⟩
+  | fuel => rw [hr] at hok; cases hok
+  | panic => rw [hr] at hok; cases hok
+  | err => rw [hr] at hok; cases hok
+
+/-- … and the verdicts go through the Loader document: a string of length 2 is valid, a number is not -/
+example : (match Go.resolve exDocEnv 2 0 "" with
+    | .ok rs =>
+      [Spec.valid (Go.RIso.specOf exDocStore rs fun _ _ => false) 4 0 (.str "xy"),
+       Spec.valid (Go.RIso.specOf exDocStore rs fun _ _ => false) 4 0 (.num 1)]
+    | _ => []) = [some true, some false] := by
+  decide +kernel
 
 /-- `clone_of_dag_resolves`: the converse direction fails, and must: a DAG (schema 1 is shared) is refused by Resolve
     ("do not form a tree"), its clone is a tree and resolves -/
